@@ -124,7 +124,7 @@ Section G.
       | progress cbn [gs gaps_step app g_i g_pend g_dg]
       | rewrite Z.eqb_refl
       | match goal with
-        | |- context [if (?a =? ?b) then Some _ else None] => replace (a =? b) with true by (symmetry; apply Z.eqb_eq; first [zlia | timeout 5 lia])
+        | |- context [if (?a =? ?b) then Some _ else None] => replace (a =? b) with true by (symmetry; apply Z.eqb_eq; first [zlia | timeout 90 lia])
         end ].
 
   Ltac g_pre :=
@@ -203,7 +203,7 @@ Section G.
     repeat (match goal with
             | x : bool |- context [?y] => constr_eq x y; destruct x
             end; bnorm; try reflexivity);
-    g_pre; try congruence; try (first [zlia | timeout 5 lia]).
+    g_pre; try congruence; try (first [zlia | timeout 90 lia]).
 
   Ltac g_post :=
     g_pre; eexists; (split; [g_chk; reflexivity|]);
